@@ -264,6 +264,43 @@ func (a *An) wipeCoverage(rule string) {
 					covered = true
 				}
 			}
+			// ... and on every path: each return of wipe() other than the nil-receiver guard comes after the zeroing (the
+			// key context of an exchange is handed over, not wiped, by wipe(false): that field is exempt)
+			if covered && !(tn == "ake" && fld.Name() == "keys") {
+				must := true
+				at := ""
+				for _, r := range a.returnsOf(w) {
+					guard := false
+					for _, fact := range a.F.LocalAt(r).List() {
+						if strings.HasPrefix(fact, "passed:($") && strings.HasSuffix(fact, " == nil)") {
+							guard = true
+						}
+					}
+					if guard {
+						continue
+					}
+					dom := false
+					for _, b := range w.Blocks {
+						for _, in := range b.Instrs {
+							for _, ef := range a.E.InstrEffects(in) {
+								if ef.Kind == EffWipe && (ef.Path == "$0."+fld.Name() || strings.HasPrefix(ef.Path, "$0."+fld.Name()+".") || strings.HasPrefix(ef.Path, "$0."+fld.Name()+"[")) {
+									if instrDominates(in, r) {
+										dom = true
+									} else if l := loopContaining(naturalLoops(w), in); l != nil && l.Header.Dominates(r.Block()) {
+										dom = true // zeroing every element in a loop that is passed on the way
+									}
+								}
+							}
+						}
+					}
+					if !dom {
+						must = false
+						at = a.C.InstrPos(r)
+					}
+				}
+				R.Check(must, rule, tn+".wipe|"+fld.Name()+"|every-path", "wipe() zeroes "+tn+"."+fld.Name()+" on every path (only a nil receiver returns early)", a.C.Pos(w.Pos()),
+					"the return at "+at+" is reachable without zeroing "+tn+"."+fld.Name()+": in that state the secret is dropped, not erased")
+			}
 			// ake.keys is deliberately handed over (not wiped) by wipe(false): covered on the wipeKeys=true path
 			R.Check(covered, rule, tn+".wipe|"+fld.Name(), "wipe() zeroes every secret-capable field of "+tn, a.C.Pos(w.Pos()),
 				"field "+tn+"."+fld.Name()+" can hold secret bytes but (*"+tn+").wipe does not zero it")
